@@ -2,6 +2,7 @@ package wasp
 
 import (
 	"context"
+	"fmt"
 	"sync"
 	"time"
 
@@ -135,7 +136,13 @@ func (s *manager) DisconnectClients(ctx context.Context) {
 	}
 }
 
-func (s *setupWorker) setup(ctx context.Context, m transport.Metadata) error {
+func (s *setupWorker) setup(ctx context.Context, m transport.Metadata) (err error) {
+	// the packet decoder panics on some malformed bodies: that must cost the sender its connection, not the broker its life
+	defer func() {
+		if r := recover(); r != nil {
+			err = fmt.Errorf("panic while setting up connection: %v", r)
+		}
+	}()
 	c := m.Channel
 	c.SetReadDeadline(
 		time.Now().Add(connectTimeout),
@@ -255,7 +262,14 @@ type timeoutError interface {
 	Timeout() bool
 }
 
-func (s *connectionWorker) processSession(ctx context.Context, session *sessions.Session) bool {
+func (s *connectionWorker) processSession(ctx context.Context, session *sessions.Session) (ok bool) {
+	// the packet decoder panics on some malformed bodies: that must cost the sender its session, not the broker its life
+	defer func() {
+		if r := recover(); r != nil {
+			L(ctx).Warn("panic while processing packet", zap.Any("panic", r))
+			ok = false
+		}
+	}()
 	c := session.ReadWriter()
 	started := time.Now()
 	pkt, err := s.decoder.Decode(c)
